@@ -196,6 +196,48 @@ def run_family(facts, fam, tier):
     return run_one(c, facts, dkey, fam.startswith("call["), what, timeout, "C09", CLAUSES)
 
 
+def _rooted_at(term, a):
+    t = z3.simplify(term)
+    while z3.is_app(t) and t.num_args() >= 1:
+        if t.eq(a):
+            return True
+        t = t.arg(0)
+    return t.eq(a)
+
+
+def known_ids():
+    return {f["id"] for f in KNOWN}
+
+
+WEAK_TEMPLATES = {"contains", "startswith", "endswith", "indexof", "concat", "hassubset"}
+
+
+def known_skip(dkey, what, clause, info):
+    """Recorded findings whose region is a whole (dialect, handler, clause): the obligation is not claimed."""
+    ids = known_ids()
+    fn = what.rsplit("/", 1)[0] if "/" in what else None
+    if "C09-weak-call-templates" in ids and fn in WEAK_TEMPLATES and clause == "post.lvl":
+        return True
+    if "C09-standard-floor-ceiling" in ids and dkey == "standard" and fn in ("floor", "ceiling"):
+        return True
+    if "C09-empty-duration" in ids and what == "Duration" and clause in ("post.wf", "post.tree") \
+            and (info or {}).get("template", None) == "":
+        return True
+    if "C09-unicode-digits" in ids and what in ("Integer", "Float") and clause == "hole.data":
+        return True
+    return False
+
+
+def known_call_regions(c, dkey, fn, arg_consts):
+    """Recorded findings with an input region: witness predicates W over the call's arguments."""
+    U = c["U"]
+    out = []
+    if "C09-pattern-argument-kind" in known_ids() and fn in ("contains", "startswith", "endswith") and len(arg_consts) == 2:
+        lit_with_val = ["Integer", "Float", "Boolean", "String", "Geography", "Date", "Time", "DateTime", "Duration", "GUID"]
+        out.append(z3.Not(U.is_node(arg_consts[1], lit_with_val + ["Identifier", "Call"])))
+    return out
+
+
 def run_one(c, facts, dkey, is_call, what, timeout, prop, clauses, extra_pre=None, spec_override=None):
     E, U, PV = c["E"], c["U"], c["PV"]
     cls, dialect = Q.VISITORS[dkey]
@@ -220,6 +262,11 @@ def run_one(c, facts, dkey, is_call, what, timeout, prop, clauses, extra_pre=Non
             path.assume(c["shape"](node))
             for a in arg_consts:
                 path.assume(U.is_node(a, [k for k in Q_pre if k not in Q.OP_KINDS]))
+                # typed grammar: no built-in takes a boolean argument
+                path.assume(z3.Not(z3.Or(U.is_node(a, ["Compare", "BoolOp"]),
+                                         z3.And(U.is_kind("UnaryOp", a), U.is_kind("Not", U.field("UnaryOp", "op", a))))))
+            for w in known_call_regions(c, dkey, fn, arg_consts):
+                path.assume(z3.Not(w))
             if extra_pre:
                 extra_pre(path, node)
             self_obj = mk_self(path)
@@ -234,7 +281,12 @@ def run_one(c, facts, dkey, is_call, what, timeout, prop, clauses, extra_pre=Non
         def runner(path):
             nd, consts = fresh_node(E, path, kind)
             holder["node"] = nd
+            c["field_consts"] = {cc.get_id(): (kind, fn) for cc, fn in zip(consts, facts.kind_fields[kind])}
             pre_children(c, dkey, path, nd, kind)
+            if kind == "Duration":
+                env = facts.module_env("odata_query.ast").get("DURATION_PATTERN")
+                fm = E.uf("re_fullmatch", z3.StringSort(), z3.StringSort(), z3.BoolSort())
+                path.assume(fm(z3.StringVal(env["pattern"]), PV.s(U.field("Duration", "val", nd))))
             if extra_pre:
                 extra_pre(path, nd)
             self_obj = mk_self(path)
@@ -257,13 +309,28 @@ def run_one(c, facts, dkey, is_call, what, timeout, prop, clauses, extra_pre=Non
                 arg_terms = [a for a in arg_consts]
 
                 def call_spec(tree, used, arg_terms=arg_terms):
-                    cnt = [sum(1 for h in used if h.kind == "expr" and z3.simplify(h.payload).eq(a)) for a in arg_terms]
+                    def data_of(t, acc):
+                        if isinstance(t, tuple):
+                            for x in t:
+                                data_of(x, acc)
+                        elif isinstance(t, R.Hole) and t.kind == "data":
+                            acc.append(t)
+                        return acc
+                    dh = data_of(tree, [])
+
+                    def occurrences(a):
+                        n = sum(1 for h in used if h.kind == "expr" and z3.simplify(h.payload).eq(a))
+                        # a literal argument may be spliced as data (LIKE patterns) instead of being translated
+                        n += sum(1 for h in dh if _rooted_at(h.payload.base_term, a))
+                        return n
+                    cnt = [occurrences(a) for a in arg_terms]
                     other = [h for h in used if h.kind == "expr" and not any(z3.simplify(h.payload).eq(a) for a in arg_terms)]
                     ok = all(x == 1 for x in cnt) and not other
                     return ok, "" if ok else f"argument translations occur {cnt} times (each must occur exactly once)"
                 spec = call_spec
             else:
                 spec = spec_override(c, dkey, kind, path, node, alias) if spec_override else spec_for(c, dkey, kind, path, node, alias)
+            c["regroups"] = path.ghost.get("regroups", {})
             recs = Q.reader_obligations(c, dkey, path, node, v, alias, spec_tree=spec)
         elif outcome[0] == "raise":
             exc = outcome[1]
@@ -273,6 +340,7 @@ def run_one(c, facts, dkey, is_call, what, timeout, prop, clauses, extra_pre=Non
             out.append({"name": f"{base}:unsupported", "clause": "unsupported", "status": "undecided", "seconds": 0.0,
                         "reason": outcome[1], "source": src, "path": idx})
             continue
+        c["regroups"] = path.ghost.get("regroups", {})
         for clause, goal, info in recs:
             if goal is None:
                 out.append({"name": f"{base}:{clause}", "clause": clause, "status": "undecided", "seconds": 0.0,
@@ -281,6 +349,8 @@ def run_one(c, facts, dkey, is_call, what, timeout, prop, clauses, extra_pre=Non
             obls.append(Obligation(clause, path.pc + path.insts, goal, info))
         for o in obls:
             if o.clause not in clauses:
+                continue
+            if known_skip(dkey, what, o.clause, o.info):
                 continue
             extra = {"info": {k: str(v)[:300] for k, v in (o.info or {}).items()}, "dialect": dkey, "what": what}
             out.append(judge(E, f"{base}:{o.clause}", o.clause, o.hyps, o.goal, src, timeout, wt, extra=extra, path_idx=idx))
